@@ -20,7 +20,9 @@ from typing import Any, Callable, Iterable, Optional, Sequence
 VERIF = Path(__file__).resolve().parents[1]
 LEAN = VERIF / "lean"
 REPO = Path(os.environ.get("J2O_REPO", "/repo"))
-EVIDENCE = VERIF / "evidence"
+# evidence of runs against a scratch tree (J2O_REPO set: seeded mutations) never overwrites the
+# committed evidence of /repo itself
+EVIDENCE = VERIF / ("evidence" if "J2O_REPO" not in os.environ else "replays/evidence_scratch")
 REPLAYS = VERIF / "replays"
 CORPUS = VERIF / "corpus"
 KNOWN_FINDINGS = VERIF / "known_findings.json"
@@ -399,7 +401,7 @@ class Check:
             "known_findings_reported": self.known_hits,
             "notes": self.notes,
         }
-        EVIDENCE.mkdir(exist_ok=True)
+        EVIDENCE.mkdir(parents=True, exist_ok=True)
         (EVIDENCE / f"{self.prop}.json").write_text(json.dumps(ev, indent=1, default=str))
         self.log(f"done in {ev['wall_s']} s: evaluations={cov['evaluations']} "
                  f"distinct={cov['distinct_nontrivial']} violations={len(self.violations)} "
